@@ -68,7 +68,35 @@ def with_twins(cases, every=4):
     return out
 
 
-def observe(lib, cases, literal=True, checks=('value',), extra_env=None, ranges=False, twins=False):
+class HostText(str):
+    """text as a host may hold it: an instance of a subclass of str"""
+
+
+class HostInt(int):
+    pass
+
+
+class HostFloat(float):
+    pass
+
+
+def exotic(v, tuples=False):
+    """the same value as an instance of a subclass (and, for arrays, as a tuple): it is still that text / number / array"""
+    if isinstance(v, bool) or v is None:
+        return v
+    if isinstance(v, str):
+        return HostText(v)
+    if isinstance(v, int):
+        return HostInt(v)
+    if isinstance(v, float):
+        return HostFloat(v)
+    if isinstance(v, list):
+        w = [exotic(x, tuples) for x in v]
+        return tuple(w) if tuples else w
+    return v
+
+
+def observe(lib, cases, literal=True, checks=('value',), extra_env=None, ranges=False, twins=False, subclasses=False, force_wrap=False):
     obs = []
     h = None
     # evaluated in a seeded random order: an answer must not depend on which call of its kind came first in the process
@@ -107,11 +135,16 @@ def observe(lib, cases, literal=True, checks=('value',), extra_env=None, ranges=
                     nodes.append(F.var(NAMES[i]))
             forms.append((F.call(f, *nodes), e2))
         for a, e in forms:
-            h = F.Harnessed(lib, e)
+            wrap = None
+            if subclasses and a is ast and (len(obs) % 5 == 1 or force_wrap):
+                wrap = (lambda v: exotic(v, tuples=f in ('AND', 'OR', 'XOR'))) if True else None
+            h = F.Harnessed(lib, e, wrap=wrap)
             text = F.render(a)
             o = h.parse(text, again=len(obs) % 3 == 2)
             o.update({'id': len(obs) + 1, 'ast': a, 'env': e, 'formula': text, 'checks': list(checks),
                       'in': {'f': f, 'args': args, 'formula': text}})
+            if wrap:
+                o['in']['exotic'] = True
             obs.append(o)
     return obs
 
